@@ -54,7 +54,7 @@ TFileWrite ==
 TFinalize == Is("Finalize") /\ Adv /\ Finalize(Ev.csr, Ev.issued)
 TCert == Is("CertServed") /\ Adv /\ CertServed(Ev.sha, Ev.genuine)
 THookFailed == Is("HookFailed") /\ Adv /\ HookFailed
-TReqEnd == Is("ReqEnd") /\ Adv /\ ReqEnd(Ev.ok, Ev.status)
+TReqEnd == Is("ReqEnd") /\ Adv /\ ReqEnd(Ev.ok, Ev.status, Ev.carries)
 TPostOp == Is("PostOp") /\ Adv /\ PostOperation(Ev.is_success, Ev.status, KeyFacts(Ev.key), CrtFacts(Ev.cert))
 TEnd == Is("AttemptEnd") /\ Adv /\ AttemptEnd(Ev.ok, Ev.real)
 TDaemonEnd == Is("DaemonEnd") /\ Adv /\ DaemonEnd(Ev.clean)
